@@ -201,6 +201,12 @@ def _gen_c16(rng, max_stages):
                 val = S.SD(op, None, [[S.ikey(i), S.leaf(rng.choice([7, 8, 9]))] for i in range(rng.randint(0, 2))], form="tag")
             elif op == "prev":
                 idp = [(pp, nn) for pp, nn in allp if all(x.isidentifier() for x in pp)]
+                # elements of lists as targets (`!prev a.b[1]`, round 4 / F25): every third reference when there are any
+                lep = [(pp, nn) for d0 in docs for pp, nn in _paths_of_sd(d0)
+                       if pp and isinstance(pp[0], str) and any(isinstance(x, int) for x in pp)
+                       and all(x.isidentifier() for x in pp if isinstance(x, str))]
+                if lep and rng.random() < 0.33:
+                    idp = lep
                 if idp and rng.random() < 0.85:
                     q, _ = rng.choice(idp)
                 else:
@@ -380,7 +386,7 @@ BUILDER = {
         "rule": "A: base configs (mappings over a b, depth<=3, scalars, lists of 0-2 elements) x newer documents placing !append [7], "
                 "!append [], !extend [7,8], !prev <5 paths> or a scalar at every path of depth<=2 (top level / nested, existing / missing, "
                 "list / non-list targets, several operators per document); operators in a first document; 3-stage sequences on a "
-                "narrower set; B: seeded random histories aiming the operators at paths of earlier documents (or mistyped ones). "
+                "narrower set; !prev of list ELEMENTS (C16_DocsLE: a[0] a[1] a[2] a[0][1] b[0] at three keys over 4 bases); B: seeded random histories aiming the operators at paths of earlier documents - every third !prev at a list element - (or mistyped ones). "
                 "non-trivial = a later document contains an operator; distinct by content",
     },
     "C15": {
